@@ -23,8 +23,8 @@ warnings.filterwarnings("ignore", category=SyntaxWarning)  # generated string co
 ID = "C03"
 LEVEL = "exploration"
 RULE = (
-    "Hypothesis: recursive expression models (all 28 ast classes of _node_map, all operators, depth <=4 quick / <=6 thorough) "
-    "rendered by ast.unparse into one of 14 storage positions x {future import, none} x 9 Literal spellings. "
+    "Hypothesis draws a choice sequence from which a recursive expression model is built deterministically (all 28 ast classes of "
+    "_node_map, all operators, depth <=4 quick / <=6 thorough); the model is rendered by ast.unparse into one of 16 storage positions x {future import, none} x 9 Literal spellings. "
     "non-trivial = nesting depth >=2 and (CPython's unparser parenthesises at least one operand, or the tree holds a "
     "comprehension / lambda / f-string / starred / slice node, or a string constant sits in an annotation position); "
     "distinct = distinct (position kind, future import, normalised dump of the expected tree)"
@@ -44,11 +44,11 @@ ASSUMPTIONS = [
     "the resolvable-name clause demands canonical_path == 'm.A' / 'pkg.B' only for the module-level class A and the imported B when "
     "the expression does not rebind them; for all other names only that canonical_path does not raise",
 ]
-BUDGET_S = {"quick": 55.0, "thorough": 1100.0}
+BUDGET_S = {"quick": 45.0, "thorough": 1000.0}
 SHRINK_MAX_EXAMPLES = 70000
 
-ANNOTATION_POS = ("ann-module", "ann-module-value", "ann-class", "param-ann", "return", "method-param-ann")
-VALUE_POS = ("value-module", "value-class", "default", "kwdefault", "method-default", "decorator-func", "decorator-class", "base")
+ANNOTATION_POS = ("ann-module", "ann-module-value", "ann-class", "param-ann", "return", "method-param-ann", "init-ann")
+VALUE_POS = ("value-module", "value-class", "default", "kwdefault", "method-default", "decorator-func", "decorator-class", "base", "init-value")
 POSITIONS = ANNOTATION_POS + VALUE_POS
 
 
@@ -88,6 +88,10 @@ def carrier(pos: str, e: ast.expr) -> ast.stmt:
         return ast.AnnAssign(v, e, ast.Constant(0), 1)
     if pos == "ann-class":
         return _cls("K", body=[ast.AnnAssign(v, e, None, 1)])
+    if pos in ("init-value", "init-ann"):
+        target = ast.Attribute(ast.Name("self", ast.Load()), "v", ast.Store())
+        stmt = ast.Assign([target], e) if pos == "init-value" else ast.AnnAssign(target, e, ast.Constant(0), 0)
+        return _cls("K", body=[_fn("__init__", _arguments(args=[ast.arg("self")]), body=[stmt])])
     if pos == "param-ann":
         return _fn("f", _arguments(args=[ast.arg("p", e)]))
     if pos == "method-param-ann":
@@ -119,6 +123,10 @@ def locate(pos: str, stmt: ast.stmt) -> ast.expr:
         return stmt.annotation
     if pos == "ann-class":
         return stmt.body[0].annotation
+    if pos == "init-value":
+        return stmt.body[0].body[0].value
+    if pos == "init-ann":
+        return stmt.body[0].body[0].annotation
     if pos == "param-ann":
         return stmt.args.args[0].annotation
     if pos == "method-param-ann":
@@ -142,11 +150,11 @@ def fetch(module, pos: str):
     """The expression Griffe stored for the position (observation points of the property)."""
     if pos == "value-module":
         return module.members["v"].value
-    if pos == "value-class":
+    if pos in ("value-class", "init-value"):
         return module.members["K"].members["v"].value
     if pos in ("ann-module", "ann-module-value"):
         return module.members["v"].annotation
-    if pos == "ann-class":
+    if pos in ("ann-class", "init-ann"):
         return module.members["K"].members["v"].annotation
     if pos == "param-ann":
         return module.members["f"].parameters["p"].annotation
@@ -243,6 +251,10 @@ def expand(node, state: str, r: Rendered, stats: Counter):
     below = "no" if state == "no" else "may"
     new = type(node)()
     for field, value in ast.iter_fields(node):
+        if isinstance(node, ast.JoinedStr) and field == "values":
+            # literal text of an f-string is not a string constant of its own
+            new.values = [v if isinstance(v, ast.Constant) else expand(v, below, r, stats) for v in value]
+            continue
         sub = below
         if state != "no":
             if isinstance(node, ast.Subscript) and field == "slice":
@@ -599,6 +611,10 @@ def _parsed_strings(node):
         return try_parse(node.value) or node
     new = type(node)()
     for field, value in ast.iter_fields(node):
+        if isinstance(node, ast.JoinedStr) and field == "values":
+            value = [v if isinstance(v, ast.Constant) else _parsed_strings(v) for v in value]
+            setattr(new, field, value)
+            continue
         setattr(new, field, _parsed_strings(value))
     return new
 
@@ -614,6 +630,10 @@ def _all_parsed(node, r):
         return Either(node, parsed) if parsed is not None else node
     new = type(node)()
     for field, value in ast.iter_fields(node):
+        if isinstance(node, ast.JoinedStr) and field == "values":
+            value = [v if isinstance(v, ast.Constant) else _all_parsed(v, r) for v in value]
+            setattr(new, field, value)
+            continue
         setattr(new, field, _all_parsed(value, r))
     return new
 
@@ -728,11 +748,17 @@ def describe(case):
 
 def run_shard(ctx) -> None:
     strat, salt = strategy(ctx)
-    n = ctx.scale(2600, 60000)
 
     def describe_and_count(case):
         for slug, k in (case.get("steered") or {}).items():
             ctx.excluded(SWITCH_SLUG.get(slug, slug), k)
         return describe(case)
 
-    ctx.run_hypothesis(strat, check_case, max_examples=n, describe=describe_and_count, salt=salt)
+    # quick: one search of 2600 cases per shard. thorough: 10 searches of 6000 (the first with the salt the shrinker
+    # replays), so that a spent wall-clock budget ends the run after the current chunk instead of drawing on.
+    chunks = ctx.scale(1, 10)
+    size = ctx.scale(2600, 6000)
+    for k in range(chunks):
+        if ctx.out_of_budget():
+            break
+        ctx.run_hypothesis(strat, check_case, max_examples=size, describe=describe_and_count, salt=salt if k == 0 else f"{salt}#{k}")
